@@ -380,6 +380,7 @@ def coll_stages(tier, battery, n=None, ln=None):
     st.append(Stage("random", "collation/bytes/und", "han", "q", battery, n=(2 if q else 10), len=(120 if q else 200), batevery=3))
     # strings of 1000+ characters: sort keys longer than the collator buffer's inline array
     st.append(Stage("random", "collation/string/und", "textlong", "q", battery, n=(2 if q else 8), len=(24 if q else 50), batevery=4, dumpevery=6))
+    st.append(Stage("model", "collation/string/und", "textcase", "q", battery))
     # absent keys whose sort keys end around the depth an optimistic skip arrives at
     for k in (["collation/string/und"] if q else ["collation/string/und", "collation/bytes/sv", "collation/runes/und"]):
         st.append(Stage("random", k, "textrep", "q", battery, n=(8 if q else 24), len=(30 if q else 60), batevery=3, dumpevery=5))
